@@ -8,6 +8,7 @@ observable through the routine's own read-out -- no variable of the model has to
 
 import collections
 import itertools
+from fractions import Fraction
 
 from sa.fold import Lifted, Obj, Raised, Rec, Unfoldable  # noqa: F401
 from sa.lpmodel import new_model, wrapper_model
@@ -47,8 +48,10 @@ class Instance:
                 f"reads {{{', '.join(f'{k}: {v}' for k, v in self.reads.items())}}}")
 
 
-def fold_solve_major(repo, inst: Instance, gap, wrapper=None):
-    """-> ('return', [(score, Counter(allele names), sorted novel variants)]) | ('raise', text)"""
+def fold_solve_major(repo, inst: Instance, gap, wrapper=None, every=False):
+    """-> ('return', [(score, Counter(allele names), sorted novel variants)]) | ('raise', text).
+    every=True: the wrapper instance is given a `solutions` that walks all feasible points of the recorded model (best first), so
+    the routine's own read-out lists every combination the model admits, independent of the gap and of the enumerator's cuts."""
     f = repo.func("major::solve_major_model")
     wrapper = wrapper or wrapper_model(repo)
     libs = []
@@ -56,6 +59,14 @@ def fold_solve_major(repo, inst: Instance, gap, wrapper=None):
     def mk(name, solver):
         m, lib = new_model(wrapper, name)
         libs.append(lib)
+        if every:
+            def every_point(*a, **k):
+                for obj, val in lib.enumerate():
+                    for v in lib.vars:
+                        v.value = val.get(v, 0.0)
+                    lib.best = obj
+                    yield ("optimal", obj, tuple(sorted(v.name() for v in lib.integer_vars() if v.vtype == "B" and val.get(v) == 1)))
+            m.__dict__["solutions"] = every_point
         return m
 
     allele_dict = {k: Obj(cn_config=c, func_muts=set(ms), minors={}, name=k) for k, (c, ms) in inst.alleles.items()}
@@ -108,18 +119,18 @@ def reference(inst: Instance):
         called = sorted(a for part in choice for a in part)
         carried = collections.Counter(m for a in called for m in inst.alleles[a][1])
         novel = tuple(sorted(m for m in present if carried[m] == 0))
-        err = 0.0
+        err = Fraction(0)     # exact arithmetic: ties of the documented objective are ties, whatever the floating-point sums say
         for m in present:
-            d = inst.depth(m) if inst.depth(m.pos) else 0.0
-            obs = (inst.reads.get(m, 0) / d) if d else 0.0
+            d = Fraction(inst.depth(m)) if inst.depth(m.pos) else Fraction(0)
+            obs = (Fraction(inst.reads.get(m, 0)) / d) if d else Fraction(0)
             err += abs(obs - (carried[m] + (1 if m in novel else 0)))
         for p in sites:
-            d = inst.depth(Mut(p, "_")) if inst.depth(p) else 0.0
-            obs = (inst.reads.get(Mut(p, "_"), 0) / d) if d else 0.0
+            d = Fraction(inst.depth(Mut(p, "_"))) if inst.depth(p) else Fraction(0)
+            obs = (Fraction(inst.reads.get(Mut(p, "_"), 0)) / d) if d else Fraction(0)
             ref_copies = sum(1 for a in called if (a, p) not in inst.no_cov
                              and not any(m.pos == p and not m.op.startswith("ins") for m in inst.alleles[a][1]))
             err += abs(obs - ref_copies)
-        score = err + (inst.major_novel if novel else 0.0) + 0.1 * len(novel)
+        exact = err + (Fraction(str(inst.major_novel)) if novel else 0) + Fraction(1, 10) * len(novel)
         one_per_site = all(sum(1 for m in novel if m.pos == p and not m.op.startswith("ins")) <= 1 for p in sites)
-        out[tuple(called), novel] = (score, one_per_site)
+        out[tuple(called), novel] = (float(exact), one_per_site, exact)
     return out
